@@ -103,7 +103,7 @@ class Walker:
                 out.append((path, blk))
                 continue
             if k == "switch":
-                nxt = self._switch(blk, t)
+                nxt = self._switch(blk, t, path)
             else:
                 nxt = self.b.normal_succs(blk)
             for n in nxt:
@@ -112,7 +112,7 @@ class Walker:
                 stack.append((n, path + [n]))
         return out
 
-    def _switch(self, blk, t):
+    def _switch(self, blk, t, path=None):
         ve = self.br.variant_edges(blk)
         if ve is not None:
             try:
@@ -126,6 +126,16 @@ class Walker:
             v = self.eval_terms(self.br.cond(blk))
         except Undecided:
             v = None
+        if v is None and path is not None:
+            # a flag set differently on different paths (`let is_eq = matches!(..)`): its value along *this* path
+            po = Origins(self.b, self.o.facts, only_blocks=set(path))
+            saved, self.o = self.o, po
+            try:
+                v = self.eval_terms(Branches(self.b, po).cond(blk))
+            except Undecided:
+                v = None
+            finally:
+                self.o = saved
         if v is None:
             return self.b.normal_succs(blk)
         for val, tgt in t["targets"]:
